@@ -225,6 +225,33 @@ fn trigger_programs() -> Vec<(String, String)> {
     for (pos, src) in positions {
         v.push((format!("serde:{pos}"), src));
     }
+    // the same trigger in the remaining owners of code and in expression forms with sub-expressions
+    let more: Vec<(&str, String)> = vec![
+        ("newtype-method", format!("type Id = newtype int:\n    def dump(self, d: Dict[str, int]) -> str:\n        return {js}\n\ndef main() -> None:\n    print(Id(1).dump({{\"k\": 1}}))\n")),
+        ("trait-default-method", format!("trait Dumper:\n    def dump(self, d: Dict[str, int]) -> str:\n        return {js}\n\nclass K with Dumper:\n    v: int\n\ndef main() -> None:\n    print(K(v=1).dump({{\"k\": 1}}))\n")),
+        ("model-method", format!("model M:\n    v: int\n\n    def dump(self, d: Dict[str, int]) -> str:\n        return {js}\n\ndef main() -> None:\n    print(M(v=1).dump({{\"k\": 1}}))\n")),
+        ("fstring", wrap(&format!("    print(f\"v={{{js}}}\")\n"))),
+        ("closure-body", wrap(&format!("    f = (x) => len({js}) + x\n    print(f(1))\n"))),
+        ("comprehension-expr", wrap(&format!("    xs = [len({js}) + i for i in range(2)]\n    print(xs[0])\n"))),
+        ("comprehension-filter", wrap(&format!("    xs = [i for i in range(3) if len({js}) > i]\n    print(len(xs))\n"))),
+        ("dict-value", wrap(&format!("    m = {{\"a\": {js}}}\n    print(len(m))\n"))),
+        ("index", wrap(&format!("    print({js}[0])\n"))),
+        ("slice-bound", wrap(&format!("    s = \"abcdef\"\n    print(s[0:len({js})])\n"))),
+        ("match-scrutinee", wrap(&format!("    match len({js}):\n        0 => print(0)\n        _ => print(1)\n"))),
+        ("method-receiver", wrap(&format!("    print({js}.upper())\n"))),
+        ("unary", wrap(&format!("    print(-len({js}))\n"))),
+        ("compound-assign", wrap(&format!("    mut n = 0\n    n += len({js})\n    print(n)\n"))),
+        ("field-assign", format!("class K:\n    s: str\n\ndef main() -> None:\n    d = {{\"k\": 1}}\n    mut k = K(s=\"\")\n    k.s = {js}\n    print(k.s)\n")),
+        ("index-assign", wrap(&format!("    mut xs = [\"\"]\n    xs[0] = {js}\n    print(xs[0])\n"))),
+        ("constructor-arg", format!("model M:\n    s: str\n\ndef main() -> None:\n    d = {{\"k\": 1}}\n    m = M(s={js})\n    print(m.s)\n")),
+        ("tuple-elem", wrap(&format!("    t = (1, {js})\n    print(t.0)\n"))),
+        ("chained-assign", wrap(&format!("    s1 = s2 = {js}\n    print(s1)\n    print(s2)\n"))),
+        ("index-assign-index", wrap(&format!("    mut xs = [0, 0, 0, 0, 0, 0, 0, 0, 0, 0]\n    xs[len({js})] = 1\n    print(xs[0])\n"))),
+        ("ifexpr-cond", wrap(&format!("    v = if len({js}) > 0:\n        1\n    else:\n        2\n    print(v)\n"))),
+    ];
+    for (pos, src) in more {
+        v.push((format!("serde:{pos}"), src));
+    }
     // serde requested through derives only, at every place a derive can stand
     let m = |decos: &str, kind: &str| format!("{decos}{kind} Item:\n    name: str\n\ndef main() -> None:\n    pass\n");
     v.push(("serde:derive-model".into(), m("@derive(Serialize)\n", "model")));
@@ -236,6 +263,8 @@ fn trigger_programs() -> Vec<(String, String)> {
     v.push(("serde:derive-on-class-after-model".into(), format!("model First:\n    a: int\n\n{}", m("@derive(Eq)\n@derive(Deserialize)\n", "class"))));
     v.push(("async:fn".into(), "async def w() -> int:\n    return 1\n\ndef main() -> None:\n    pass\n".into()));
     v.push(("async:class-method".into(), "class K:\n    v: int\n\n    async def w(self) -> int:\n        return 1\n\ndef main() -> None:\n    pass\n".into()));
+    v.push(("async:newtype-method".into(), "type Id = newtype int:\n    async def w(self) -> int:\n        return 1\n\ndef main() -> None:\n    pass\n".into()));
+    v.push(("async:trait-default-method".into(), "trait W:\n    async def w(self) -> int:\n        return 1\n\nclass K with W:\n    v: int\n\ndef main() -> None:\n    pass\n".into()));
     v.push(("async:model-method".into(), "model M:\n    v: int\n\n    async def w(self) -> int:\n        return 1\n\ndef main() -> None:\n    pass\n".into()));
     v.push(("web:route-only".into(), "@route(\"/\")\ndef index() -> str:\n    return \"hi\"\n\ndef main() -> None:\n    pass\n".into()));
     v.push(("web:import-only".into(), "from web import App\n\ndef main() -> None:\n    pass\n".into()));
@@ -274,7 +303,51 @@ fn trigger_case(out: &mut Out, scratch: &str, name: &str, src: &str) {
     out.case(&format!("c15 trigger app {flags} {crates} {name} 0"), &format!("{status} | {manifest} | refs={}", if refs.is_empty() { "-".to_string() } else { refs.join(",") }));
 }
 
+/// Sweep of the feature scanners: at every expression position of the corpus and repository programs the expression
+/// is replaced by a trigger (`json_stringify(..)` / an `await`), the text is re-parsed and the real scanner is asked.
+fn scanner_sweep(out: &mut Out, tier: &str) {
+    let mut files: Vec<String> = Vec::new();
+    for dir in ["/verif/corpus/c03", "/verif/corpus/fmt", "/repo/examples", "/repo/tests/fixtures/valid", "/repo/tests/codegen_snapshots"] {
+        let mut stack = vec![std::path::PathBuf::from(dir)];
+        while let Some(d) = stack.pop() {
+            if let Ok(rd) = std::fs::read_dir(&d) {
+                for e in rd.filter_map(|e| e.ok()) {
+                    let p = e.path();
+                    if p.is_dir() { stack.push(p); } else if p.extension().map(|x| x == "incn").unwrap_or(false) { files.push(p.to_string_lossy().to_string()); }
+                }
+            }
+        }
+    }
+    files.sort();
+    let per_path = if tier == "thorough" { 6 } else { 2 };
+    let parse = |src: &str| incan_syntax::lexer::lex(src).ok().and_then(|t| incan_syntax::parser::parse(&t).ok());
+    for (feature, trigger) in [("serde", "json_stringify(zz_d)"), ("async", "(await zz_f())")] {
+        let mut seen: std::collections::BTreeMap<String, u32> = std::collections::BTreeMap::new();
+        let (mut n, mut unparsable, mut skipped_files) = (0u32, 0u32, 0u32);
+        for f in &files {
+            let Ok(src) = std::fs::read_to_string(f) else { continue };
+            let Some(base) = parse(&src) else { continue };
+            let base_hit = if feature == "serde" { incan::backend::ir::detect_serde_usage(&base) } else { incan::backend::ir::detect_async_usage(&base) };
+            if base_hit { skipped_files += 1; continue; }
+            let Some(positions) = crate::c03::expr_positions(&src) else { continue };
+            for (path, a, b) in positions {
+                let c = seen.entry(path.clone()).or_insert(0);
+                if *c >= per_path { continue; }
+                let text = src[a..b].trim_end();
+                let edited = format!("{}{}{}", &src[..a], trigger, &src[a + text.len()..]);
+                let Some(ast) = parse(&edited) else { unparsable += 1; continue };
+                *c += 1;
+                n += 1;
+                let hit = if feature == "serde" { incan::backend::ir::detect_serde_usage(&ast) } else { incan::backend::ir::detect_async_usage(&ast) };
+                out.case(&format!("c15 scan {feature} {path}"), if hit { "detected" } else { "missed" });
+            }
+        }
+        out.meta(&serde_json::json!({"scanner_sweep": feature, "positions": n, "distinct_paths": seen.len(), "edits_unparsable": unparsable, "files_skipped_already_triggering": skipped_files}));
+    }
+}
+
 pub fn run(out: &mut Out, tier: &str, seed: u64, scratch: &str) {
+    scanner_sweep(out, tier);
     let mut rng = Rng::new(seed);
     let thorough = tier == "thorough";
     // stub cargo so that build_file's `cargo build --release` succeeds instantly and offline
